@@ -110,7 +110,21 @@ fn general_matrix(case: &Case, n: usize) -> (Vec<Vec<f64>>, f64, bool, bool) {
 
 /// symmetric matrix Q diag(l) Q^T with eigenvalue gaps >= g; returns (matrix, gap, norm)
 fn symmetric_matrix(case: &Case, n: usize) -> (Vec<Vec<f64>>, f64, f64) {
-    let q = givens(n, &case.angles, 5);
+    let mut q = givens(n, &case.angles, 5);
+    if case.high_kappa {
+        // real part already diagonal / block-diagonal: only the derivative parts couple the blocks
+        // (the iteration then has nothing to do on the real parts)
+        if case.sing % 2 == 0 || n < 3 {
+            q = (0..n).map(|i| (0..n).map(|j| if i == j { 1.0 } else { 0.0 }).collect()).collect();
+        } else {
+            let t = case.angles[0] * std::f64::consts::TAU;
+            q = (0..n).map(|i| (0..n).map(|j| if i == j { 1.0 } else { 0.0 }).collect()).collect();
+            q[0][0] = t.cos();
+            q[0][1] = -t.sin();
+            q[1][0] = t.sin();
+            q[1][1] = t.cos();
+        }
+    }
     let mut l = vec![0.0; n];
     let mut cur = -2.0 + 2.0 * case.sv[0];
     let mut gap = f64::MAX;
@@ -543,6 +557,14 @@ where
             let m = build_matrix(&lay, &re, &case.parts, true);
             let a = to_dm(&m);
             let eig = a.symmetric_eigen();
+            // KNOWN finding K2: non-finite derivative parts when an off-diagonal REAL part is exactly zero
+            // (nalgebra tests `is_zero()` / divides by quantities whose real part vanishes)
+            let exact_zero_offdiag = (0..n).any(|i| (0..n).any(|j| i != j && re[i][j] == 0.0));
+            let nonfinite = eig.eigenvalues.iter().chain(eig.eigenvectors.iter()).any(|x| x.to_flat(&dims).vals.iter().any(|v| !v.is_finite()));
+            if nonfinite && exact_zero_offdiag && n >= 2 {
+                st.known_hit("C12/na-symmetric-eigen/nonfinite-diagonal-real-part", || serde_json::to_value(case).unwrap_or_default());
+                return Ok((1.0, false));
+            }
             let aj = jets(&lay, &alg, &m.flats);
             let lj = jets(&lay, &alg, &eig.eigenvalues.iter().map(|x| x.to_flat(&dims)).collect::<Vec<_>>());
             let vj = jets(&lay, &alg, &(0..n * n).map(|k| eig.eigenvectors[(k / n, k % n)].to_flat(&dims)).collect::<Vec<_>>());
@@ -626,12 +648,14 @@ where
 fn dispatch_case(case: &Case, st: &mut Stats) -> Res {
     use Routine::*;
     match case.routine {
-        OwnSolve | OwnInverse | OwnDet | OwnEigen | OwnNorm | OwnSingular => match case.ty % 5 {
+        OwnSolve | OwnInverse | OwnDet | OwnEigen | OwnNorm | OwnSingular => match case.ty % 7 {
             0 => own::<Dual64>(case, st),
             1 => own::<Dual2_64>(case, st),
             2 => own::<DualSVec64<2>>(case, st),
             3 => own::<HyperDual64>(case, st),
-            _ => own::<Dual3_64>(case, st),
+            4 => own::<Dual3_64>(case, st),
+            5 => own::<Dual<Dual64, f64>>(case, st),
+            _ => own::<Dual2<Dual64, f64>>(case, st),
         },
         _ => match case.ty % 4 {
             0 => na::<Dual64>(case, st),
@@ -686,7 +710,7 @@ impl Property for C12 {
         }
     }
     fn rule() -> String {
-        "generated: size n in 1..6; general matrices P (Q1 D Q2) with Givens-product orthogonal factors, singular values in [0.5,2] (condition number <= 4 known by construction; 20%: up to 1e4) and a random row permutation (pivoting paths, both parities); symmetric matrices Q L Q^T with eigenvalue gaps >= 0.25; every entry carries arbitrary derivative parts (symmetric for the eigen routines); right-hand sides; scalar types Dual64, Dual2_64, DualSVec64<2>, HyperDual64, Dual3_64 for the crate's own LU / Jacobi / norm and Dual64, Dual2_64, DualSVec64<2>, Dual2SVec64<2> for nalgebra's generic LU, inverse, determinant, symmetric_eigen; singular stratum: exact dyadic matrices with a zero column / repeated row / dependent row and non-zero derivative parts. Oracle = validity predicates evaluated in the reference algebra on the library's output: A x = b, A A^-1 = I, det = Leibniz expansion (all parts, which contains Jacobi's formula), A V = V diag(lambda), V^T V = I, lambda ascending (crate Jacobi), which contains Hellmann-Feynman; tolerance 64 n u (1+kappa)^(1+order) * (summed magnitude of the identity's terms) for the direct methods, crate Jacobi 64 n u amp^(1+2 order) with amp = 1 + norm/gap; nalgebra symmetric_eigen: real part 1e7 u amp (its own accuracy), derivative parts 64 n u amp^(1+2 order) - cases beyond that are occurrences of the KNOWN finding C12/na-symmetric-eigen/derivative-parts (excluded and counted); the singular stratum must be reported (Err / None / false) and never yield non-finite output. Non-trivial: n >= 3, a row swap happened, non-zero derivative parts.".into()
+        "generated: size n in 1..6; general matrices P (Q1 D Q2) with Givens-product orthogonal factors, singular values in [0.5,2] (condition number <= 4 known by construction; 20%: up to 1e4) and a random row permutation (pivoting paths, both parities); symmetric matrices Q L Q^T with eigenvalue gaps >= 0.25 (20%: real part already diagonal or block-diagonal, only the derivative parts couple); every entry carries arbitrary derivative parts (symmetric for the eigen routines); right-hand sides; scalar types Dual64, Dual2_64, DualSVec64<2>, HyperDual64, Dual3_64 and the nested Dual<Dual64>, Dual2<Dual64> for the crate's own LU / Jacobi / norm and Dual64, Dual2_64, DualSVec64<2>, Dual2SVec64<2> for nalgebra's generic LU, inverse, determinant, symmetric_eigen; singular stratum: exact dyadic matrices with a zero column / repeated row / dependent row and non-zero derivative parts. Oracle = validity predicates evaluated in the reference algebra on the library's output: A x = b, A A^-1 = I, det = Leibniz expansion (all parts, which contains Jacobi's formula), A V = V diag(lambda), V^T V = I, lambda ascending (crate Jacobi), which contains Hellmann-Feynman; tolerance 64 n u (1+kappa)^(1+order) * (summed magnitude of the identity's terms) for the direct methods, crate Jacobi 64 n u amp^(1+2 order) with amp = 1 + norm/gap; nalgebra symmetric_eigen: real part 1e7 u amp (its own accuracy), derivative parts 64 n u amp^(1+2 order) - cases beyond that are occurrences of the KNOWN finding C12/na-symmetric-eigen/derivative-parts (excluded and counted); the singular stratum must be reported (Err / None / false) and never yield non-finite output. Non-trivial: n >= 3, a row swap happened, non-zero derivative parts.".into()
     }
     fn assumptions() -> Vec<String> {
         vec![
